@@ -13,8 +13,9 @@
   end tag and attribute name the run renders resolves, in exactly those declarations, to the
   node's name (for every tree whose elements declare no prefix twice, every start node).
   Names in the XML namespace are always written with the reserved `xml` prefix (/repo 061eba4).
-  Full strength is FALSE for elements (`C10_sound_Statement`): a no-namespace element inside the
-  scope of a default-namespace declaration is written unprefixed.
+  Element names hold at full strength since /repo a32c6f4: `render_output` refuses
+  (`MissingPrefix("")`) a no-namespace element inside the scope of a default-namespace declaration
+  instead of writing it unprefixed (`C10_sound`, `C10_sound_refused`).
 -/
 import XotModel.Lemmas.FStack
 import XotModel.Lemmas.Scope10
@@ -84,20 +85,12 @@ theorem C10_resolve_lookup {fs : Frames} (hx : XmlPrefixReserved fs) {q ns : Nat
     simp [hx ns hl]
   · simp [hq, hl]
 
-/-- Full-strength statement for element names: whatever `element_prefix` answers resolves to the
-    name's namespace.  FALSE for the code as written (`C10_sound_false`). -/
-def C10_sound_Statement : Prop :=
-  ∀ (env : Env) (s : FStack) (fs : Frames) (name : Nat) (p : Option Nat),
-    StackInv s fs → XmlPrefixReserved fs → s.elementPrefix env name = .ok p →
-    resolveElementName fs p = some (env.nsOfName name)
-
-/-- `_partial`: true under the guard that excludes exactly the defect — a name in no namespace
-    while a default namespace is in scope.  Names in the XML namespace get the reserved `xml`
-    prefix whatever the stack holds. -/
-theorem C10_sound_partial (env : Env) (s : FStack) (fs : Frames) (name : Nat) (p : Option Nat)
+/-- The prefix `element_prefix` answers resolves to the name's namespace whenever the check of the
+    `StartTagOpen` arm passes (the name is not a no-namespace name while `has_default_namespace`).
+    Names in the XML namespace get the reserved `xml` prefix whatever the stack holds. -/
+theorem C10_sound_prefix (env : Env) (s : FStack) (fs : Frames) (name : Nat) (p : Option Nat)
     (hinv : StackInv s fs) (hx : XmlPrefixReserved fs) (h : s.elementPrefix env name = .ok p)
-    (guard : env.nsOfName name = Env.noNamespace →
-      (lookupFrames fs Env.emptyPrefix).getD Env.noNamespace = Env.noNamespace) :
+    (hcheck : ¬ (env.nsOfName name = Env.noNamespace ∧ s.hasDefaultNamespace = true)) :
     resolveElementName fs p = some (env.nsOfName name) := by
   obtain ⟨_, hflat⟩ := hinv.flat
   unfold FStack.elementPrefix at h
@@ -105,7 +98,15 @@ theorem C10_sound_partial (env : Env) (s : FStack) (fs : Frames) (name : Nat) (p
   · simp only [hns, if_true] at h
     cases h
     have hz : env.nsOfName name = Env.noNamespace := by simpa using hns
-    simp [resolveElementName, guard hz, hz]
+    have hnd : ¬ s.hasDefaultNamespace = true := fun hd => hcheck ⟨hz, hd⟩
+    rw [hasDefaultNamespace_iff hinv.flat] at hnd
+    simp only [resolveElementName, hz, Option.some.injEq]
+    cases hl : lookupFrames fs Env.emptyPrefix with
+    | none => rfl
+    | some n =>
+      by_cases hn : n = Env.noNamespace
+      · simp [hn]
+      · exact absurd ⟨n, hl, hn⟩ hnd
   · simp only [hns] at h
     by_cases hxml : (env.nsOfName name == Env.xmlNamespace) = true
     · simp only [hxml, if_true] at h
@@ -127,6 +128,43 @@ theorem C10_sound_partial (env : Env) (s : FStack) (fs : Frames) (name : Nat) (p
         · simp only [hq] at h
           cases h
           simpa [resolveElementName] using C10_resolve_lookup hx hl
+
+/-- Element names, FULL strength (no guard): whenever `render_output` renders a `StartTagOpen`, the
+    token is `<` + the qualified name built from a prefix that resolves — in the declarations of the
+    open elements, the element's own included — to the element's namespace.  In particular a name
+    in no namespace is written unprefixed only where no default namespace is in scope. -/
+theorem C10_sound (esc : Escapers) (env : Env) (pr : TokenParams) (s s' : FStack) (fs : Frames)
+    (node : Tree) (parent : Option Tree) (name : Nat) (tok : OutputToken)
+    (hinv : StackInv (s.push node.nsDecls) fs) (hx : XmlPrefixReserved fs)
+    (h : renderXmlWith esc env pr s node parent (.startTagOpen name) = .ok (s', tok)) :
+    ∃ p, (s.push node.nsDecls).elementPrefix env name = .ok p ∧ s' = s.push node.nsDecls ∧
+      tok = ⟨false, fmt Gen.fmtStartTagOpen [qname env p name]⟩ ∧
+      resolveElementName fs p = some (env.nsOfName name) := by
+  simp only [renderXmlWith] at h
+  split at h
+  · cases h
+  · rename_i hc
+    have hcheck : ¬ (env.nsOfName name = Env.noNamespace ∧
+        (s.push node.nsDecls).hasDefaultNamespace = true) := by
+      intro hh; apply hc; simp [hh.1, hh.2]
+    unfold FStack.elementFullname at h
+    cases hp : (s.push node.nsDecls).elementPrefix env name with
+    | error e => simp [hp] at h
+    | ok p =>
+      simp only [hp, Outcome.ok.injEq, Prod.mk.injEq] at h
+      exact ⟨p, rfl, h.1.symm, h.2.symm, C10_sound_prefix env _ fs name p hinv hx hp hcheck⟩
+
+/-- The other half: an element in no namespace whose scope (its own declarations included) binds
+    the empty prefix to a namespace is refused with `MissingPrefix("")`, not written. -/
+theorem C10_sound_refused (esc : Escapers) (env : Env) (pr : TokenParams) (s : FStack) (fs : Frames)
+    (node : Tree) (parent : Option Tree) (name n : Nat)
+    (hinv : StackInv (s.push node.nsDecls) fs) (hname : env.nsOfName name = Env.noNamespace)
+    (hl : lookupFrames fs Env.emptyPrefix = some n) (hn : n ≠ Env.noNamespace) :
+    renderXmlWith esc env pr s node parent (.startTagOpen name) =
+      .err (.missingPrefix Env.noNamespace) := by
+  have hd : (s.push node.nsDecls).hasDefaultNamespace = true :=
+    (hasDefaultNamespace_iff hinv.flat).mpr ⟨n, hl, hn⟩
+  simp [renderXmlWith, hname, hd]
 
 /-- Attribute names: full strength, no guard — the chosen prefix resolves to the attribute's
     namespace, and an attribute is written unprefixed only when it is in no namespace. -/
@@ -155,15 +193,6 @@ theorem C10_sound_attribute (env : Env) (s : FStack) (fs : Frames) (name : Nat) 
         simp only [hp] at h
         cases h
         exact ⟨by simpa [resolveAttributeName] using C10_resolve_lookup hx hl, by simpa using hne⟩
-
-/-- The defect as a closed witness: name 0 in no namespace (`names = [("b", 0)]`), scope
-    `xmlns = namespace 2`: `element_prefix` answers "unprefixed", which resolves to namespace 2. -/
-theorem C10_sound_false : ¬ C10_sound_Statement := by
-  intro h
-  have := h ⟨[], [], [(['b'], 0)]⟩ (FStack.new [(0, 2)]) [[(0, 2)]] 0 none
-    (StackInv.base _ (by unfold UniquePrefixes; decide)) (by intro n hn; simp [lookupFrames, List.lookup, Env.xmlPrefix] at hn) rfl
-  revert this
-  decide
 
 /-! ### Errors: exactly when no usable prefix is in scope -/
 
@@ -242,26 +271,23 @@ theorem C10_stack_traversal (esc : Escapers) (env : Env) (pr : TokenParams) (t :
     (s : FStack) (p : Path) (o : Output)
     (hx : (s, p, o) ∈ stackTrace esc env pr t (initStack t start) (genOutputs t start)) :
     ∃ rel, p = start ++ rel ∧ StackInv s (framesFor o (framesAlong n rel) ++ [inScope]) :=
-  genOutputs_trace esc env pr t start n inScope hat hs hu (s, p, o) hx
+  (genOutputs_trace esc env pr t start n inScope hat hs hu (s, p, o) hx).1
 
-/-- Start tags of the run: the prefix `render_output` uses for `<name` (chosen after pushing the
-    element's own declarations) resolves, in the declarations of the open elements, to the
-    element's namespace — under the guard excluding the no-namespace-under-default defect. -/
-theorem C10_sound_tree_partial (esc : Escapers) (env : Env) (pr : TokenParams) (t : Tree) (start : Path)
+/-- Start tags of the run, full strength: every `StartTagOpen` event the run renders is written
+    with a prefix that resolves, in the declarations of the open elements (the element's own
+    included), to the element's namespace. -/
+theorem C10_sound_tree (esc : Escapers) (env : Env) (pr : TokenParams) (t : Tree) (start : Path)
     (n : Tree) (inScope : List (Nat × Nat)) (hat : t.at? start = some n)
     (hs : namespacesInScope t start = some inScope) (hu : UniqueBelow n)
-    (s : FStack) (p : Path) (name : Nat) (node : Tree) (pfx : Option Nat)
+    (s s' : FStack) (p : Path) (name : Nat) (node : Tree)
     (hx : (s, p, .startTagOpen name) ∈ stackTrace esc env pr t (initStack t start) (genOutputs t start))
     (hnode : t.at? p = some node)
-    (hpfx : (s.push node.nsDecls).elementPrefix env name = .ok pfx) :
-    ∃ rel, p = start ++ rel ∧
+    (hstep : stepStack esc env pr t s (p, .startTagOpen name) = some s') :
+    ∃ rel pfx, p = start ++ rel ∧ (s.push node.nsDecls).elementPrefix env name = .ok pfx ∧
       (XmlPrefixReserved (framesAlong n rel ++ [inScope]) →
-        (env.nsOfName name = Env.noNamespace →
-          (lookupFrames (framesAlong n rel ++ [inScope]) Env.emptyPrefix).getD Env.noNamespace = Env.noNamespace) →
         resolveElementName (framesAlong n rel ++ [inScope]) pfx = some (env.nsOfName name)) := by
-  obtain ⟨rel, hp, hinv⟩ := genOutputs_trace esc env pr t start n inScope hat hs hu _ hx
+  obtain ⟨⟨rel, hp, hinv⟩, _⟩ := genOutputs_trace esc env pr t start n inScope hat hs hu _ hx
   simp only at hp hinv
-  refine ⟨rel, hp, fun hxr guard => ?_⟩
   have hrel : n.at? rel = some node := by
     have := hnode
     rw [hp, at?_append, hat] at this
@@ -279,13 +305,31 @@ theorem C10_sound_tree_partial (esc : Escapers) (env : Env) (pr : TokenParams) (
   have hframe : frameOf node = node.nsDecls := by simp [frameOf, hval]
   obtain ⟨rest, hfr⟩ := framesAlong_head n rel node hrel
   have hun : UniquePrefixes node.nsDecls := by rw [← hframe]; exact hu rel node hrel
-  rw [hfr, hframe] at hinv guard hxr ⊢
+  rw [hfr, hframe] at hinv
   simp only [framesFor, List.tail_cons] at hinv
   have hinv' := hinv.push' hun
-  exact C10_sound_partial env _ _ name pfx hinv' (by simpa using hxr) hpfx (by simpa using guard)
+  obtain ⟨node', tok, hn', hr⟩ := stepStack_some esc env pr t s s' p _ hstep
+  rw [hnode] at hn'
+  cases hn'
+  -- without the reserved-prefix hypothesis the prefix is still the one `element_prefix` answers
+  have hpre : ∃ pfx, (s.push node.nsDecls).elementPrefix env name = .ok pfx ∧
+      ¬ (env.nsOfName name = Env.noNamespace ∧ (s.push node.nsDecls).hasDefaultNamespace = true) := by
+    simp only [renderXmlWith] at hr
+    split at hr
+    · cases hr
+    · rename_i hc
+      unfold FStack.elementFullname at hr
+      cases hpq : (s.push node.nsDecls).elementPrefix env name with
+      | error e => simp [hpq] at hr
+      | ok q => exact ⟨q, rfl, fun hh => hc (by simp [hh.1, hh.2])⟩
+  obtain ⟨pfx, hpfx, hcheck⟩ := hpre
+  refine ⟨rel, pfx, hp, hpfx, fun hxr => ?_⟩
+  rw [hfr, hframe] at hxr ⊢
+  exact C10_sound_prefix env _ _ name pfx hinv' (by simpa using hxr) hpfx hcheck
 
-/-- End tags of the run resolve the same way (same guard). -/
-theorem C10_sound_tree_endtag_partial (esc : Escapers) (env : Env) (pr : TokenParams) (t : Tree)
+/-- End tags of the run, full strength: an `EndTag` event is only reached after the element's
+    `StartTagOpen` was rendered with the same stack, so the name it writes resolves the same way. -/
+theorem C10_sound_tree_endtag (esc : Escapers) (env : Env) (pr : TokenParams) (t : Tree)
     (start : Path) (n : Tree) (inScope : List (Nat × Nat)) (hat : t.at? start = some n)
     (hs : namespacesInScope t start = some inScope) (hu : UniqueBelow n)
     (s : FStack) (p : Path) (name : Nat) (pfx : Option Nat)
@@ -293,12 +337,10 @@ theorem C10_sound_tree_endtag_partial (esc : Escapers) (env : Env) (pr : TokenPa
     (hpfx : s.elementPrefix env name = .ok pfx) :
     ∃ rel, p = start ++ rel ∧
       (XmlPrefixReserved (framesAlong n rel ++ [inScope]) →
-        (env.nsOfName name = Env.noNamespace →
-          (lookupFrames (framesAlong n rel ++ [inScope]) Env.emptyPrefix).getD Env.noNamespace = Env.noNamespace) →
         resolveElementName (framesAlong n rel ++ [inScope]) pfx = some (env.nsOfName name)) := by
-  obtain ⟨rel, hp, hinv⟩ := genOutputs_trace esc env pr t start n inScope hat hs hu _ hx
+  obtain ⟨⟨rel, hp, hinv⟩, hend⟩ := genOutputs_trace esc env pr t start n inScope hat hs hu _ hx
   simp only [framesFor] at hp hinv
-  exact ⟨rel, hp, fun hxr guard => C10_sound_partial env _ _ name pfx hinv hxr hpfx guard⟩
+  exact ⟨rel, hp, fun hxr => C10_sound_prefix env _ _ name pfx hinv hxr hpfx (hend name rfl)⟩
 
 /-- Attribute names of the run: full strength — the prefix used resolves to the attribute's
     namespace in the declarations of the open elements (its own element included). -/
@@ -311,7 +353,7 @@ theorem C10_sound_tree_attribute (esc : Escapers) (env : Env) (pr : TokenParams)
     ∃ rel, p = start ++ rel ∧
       (XmlPrefixReserved (framesAlong n rel ++ [inScope]) →
         resolveAttributeName (framesAlong n rel ++ [inScope]) pfx = some (env.nsOfName name)) := by
-  obtain ⟨rel, hp, hinv⟩ := genOutputs_trace esc env pr t start n inScope hat hs hu _ hx
+  obtain ⟨⟨rel, hp, hinv⟩, _⟩ := genOutputs_trace esc env pr t start n inScope hat hs hu _ hx
   simp only [framesFor] at hp hinv
   exact ⟨rel, hp, fun hxr => (C10_sound_attribute env _ _ name pfx hinv hxr hpfx).1⟩
 
@@ -321,6 +363,14 @@ example : resolveElementName [[(4, 3)], [], [(5, 2)]] (some 5) = some 2 := by de
 example : (FStack.new [(5, 2)]).elementPrefix ⟨[], [], [(['b'], 2)]⟩ 0 = .ok (some 5) := rfl
 /-- `xml:lang` (namespace 1) with another prefix bound to the XML namespace: the `xml` prefix is used. -/
 example : (FStack.new [(1, 1), (2, 1)]).attributePrefix ⟨[], [], [(['l'], 1)]⟩ 0 = .ok (some 1) := rfl
+
+/-- `<a xmlns="ns2"><b/></a>` with `b` in no namespace: the start tag of `b` is refused; with
+    `xmlns=""` on `b` it is written unprefixed. -/
+example : renderXml ⟨[], [], [(['b'], 0)]⟩ {} [[(0, 2)]] (.node (.element 0) []) none (.startTagOpen 0)
+    = .err (.missingPrefix 0) := rfl
+example : (renderXml ⟨[], [], [(['b'], 0)]⟩ {} [[(0, 2)]]
+      (.node (.element 0) [.node (.namespace 0 0) []]) none (.startTagOpen 0)).okValue?.map (·.1)
+    = some [[(0, 0)], [(0, 2)]] := rfl
 
 /-- Non-vacuity of the tree-level theorems: in `<a xmlns:p5="ns2"><b/></a>` (both names in
     namespace 2) the run reaches `<b` holding the stack `[[xml, p5↦2], [xml]]`; `b` is written with
